@@ -5,7 +5,7 @@
 From Coq Require Import ZArith List Bool Reals Lra Lia.
 From Coquelicot Require Import Coquelicot.
 From CV Require Import Base.Num Base.RNum C18.ValueModel C06.RestraintModel C01.ForceModel C01.ForceProofs.
-From CV Require Import C01.SuperposModel C01.SuperposProofs.
+From CV Require Import C01.PolarProofs C01.SuperposModel C01.SuperposProofs.
 Import ListNotations.
 Local Open Scope R_scope.
 
@@ -196,14 +196,31 @@ Theorem C01_bias_force_correct_abmd : forall k dec v ref ws x0, (v < length ws)%
 Proof. exact bias_force_correct_abmd. Qed.
 Print Assumptions C01_bias_force_correct_abmd.
 
+(* polarTheta (acos(z/r) of a centre of mass, degrees): off the z axis *)
+Theorem C01_grad_correct_polarTheta : forall cell co e g (s : SYS), grp_ok s g ->
+  (let c := com_of s g in vget AX c * vget AX c + vget AY c * vget AY c <> 0) ->
+  cvc_grad_correct cell (mkCvc co e KPolarTheta [g]) s.
+Proof. exact cvc_grad_correct_polarTheta. Qed.
+Print Assumptions C01_grad_correct_polarTheta.
+(* polarPhi (atan2(y, x), degrees): off the branch cut of atan2 (the half plane x <= 0, y = 0, which contains the z axis) *)
+Theorem C01_grad_correct_polarPhi : forall cell co e g (s : SYS), grp_ok s g ->
+  offcut (vget AX (com_of s g)) (vget AY (com_of s g)) ->
+  cvc_grad_correct cell (mkCvc co e KPolarPhi [g]) s.
+Proof. exact cvc_grad_correct_polarPhi. Qed.
+Print Assumptions C01_grad_correct_polarPhi.
+(* the guards of the closed statement: those of the earlier components, plus the two above (cvc_guard_w) *)
+Theorem C01_guard_widen : forall cell c (s : SYS), cvc_guard cell c s -> cvc_guard_w cell c s.
+Proof. exact cvc_guard_widen. Qed.
+Print Assumptions C01_guard_widen.
+
 (* ---- closed statement: guards only --------------------------------------------------------------------------- *)
 Theorem C01_forces_are_minus_gradient : forall (cf : config) (s : SYS),
-  (forall v c, In v (cf_vars cf) -> In c (cv_cvcs v) -> cvc_guard (cf_cell cf) c s) ->
+  (forall v c, In v (cf_vars cf) -> In c (cv_cvcs v) -> cvc_guard_w (cf_cell cf) c s) ->
   (forall b, In b (cf_biases cf) -> bias_guard b (cf_vars cf) (var_values Rops PI cf s)) ->
   forall a k, (a < length s)%nat ->
     is_derive (fun t => energy Rops PI cf (set_coord s a k t)) (coord Rops s a k)
               (- vget k (nth a (forces Rops PI cf s) (vzero Rops))).
-Proof. exact forces_are_minus_gradient. Qed.
+Proof. exact forces_are_minus_gradient_w. Qed.
 Print Assumptions C01_forces_are_minus_gradient.
 
 (* ---- run-time modifications of the superposition (SuperposModel.v) ----------------------------------------------
@@ -220,7 +237,7 @@ Print Assumptions C01_history_keeps_flags.
 Theorem C01_history_forces_are_minus_gradient :
   forall cell (descr : list (R * list (@scvc R))) bs (h : list (@event R)) (s : SYS),
   let cf := effective cell (state_after Rops descr h) bs in
-  (forall v c, In v (cf_vars cf) -> In c (cv_cvcs v) -> cvc_guard (cf_cell cf) c s) ->
+  (forall v c, In v (cf_vars cf) -> In c (cv_cvcs v) -> cvc_guard_w (cf_cell cf) c s) ->
   (forall b, In b (cf_biases cf) -> bias_guard b (cf_vars cf) (var_values Rops PI cf s)) ->
   forall a k, (a < length s)%nat ->
     is_derive (fun t => h_energy Rops PI cell descr bs h (set_coord s a k t)) (coord Rops s a k)
@@ -248,9 +265,9 @@ Proof. unfold exp_ok_at. split; [left; lia|right; lra]. Qed.
    a squared distance between an atom and a centred mass-weighted pair with a separate fitting group, under a
    harmonic restraint and an upper wall *)
 Example C01_example_guards :
-  (forall v c, In v (cf_vars ex_cf) -> In c (cv_cvcs v) -> cvc_guard (cf_cell ex_cf) c ex_sys) /\
+  (forall v c, In v (cf_vars ex_cf) -> In c (cv_cvcs v) -> cvc_guard_w (cf_cell ex_cf) c ex_sys) /\
   (forall b, In b (cf_biases ex_cf) -> bias_guard b (cf_vars ex_cf) (var_values Rops PI ex_cf ex_sys)).
-Proof. exact ex_guards. Qed.
+Proof. exact ex_guards_w. Qed.
 (* the periodic-cell case of image_ok is inhabited *)
 Example C01_example_cell : image_ok true (Some (8, 8, 8)) (0, 0, 0) (5, 1, 1) /\ ~ plain true (Some (8, 8, 8)).
 Proof. exact ex_image_cell. Qed.
@@ -270,6 +287,10 @@ Example C01_example_stale :
 Proof. exact ex_stale. Qed.
 Example C01_example_history_guards :
   let cf := effective None (state_after Rops ex_descr ex_hist) (cf_biases ex_cf) in
-  (forall v c, In v (cf_vars cf) -> In c (cv_cvcs v) -> cvc_guard (cf_cell cf) c ex_sys) /\
+  (forall v c, In v (cf_vars cf) -> In c (cv_cvcs v) -> cvc_guard_w (cf_cell cf) c ex_sys) /\
   (forall b, In b (cf_biases cf) -> bias_guard b (cf_vars cf) (var_values Rops PI cf ex_sys)).
 Proof. exact ex_hist_guards. Qed.
+(* an atom at (1, 2, 2) satisfies the guards of polarTheta and polarPhi *)
+Example C01_example_polar :
+  kind_guard_w None (mkCvc 1 1%Z KPolarTheta [exp_g]) exp_sys /\ kind_guard_w None (mkCvc 1 1%Z KPolarPhi [exp_g]) exp_sys.
+Proof. exact ex_polar. Qed.
